@@ -34,3 +34,17 @@ pub proof fn theorem_assertion_after_amount(p: Posting, ctx: DisplayContext)
     ensures pad_right(seq![' ', '='], balance_padding_spec(p, ctx)) =~= seq![' ', '='],
 {
 }
+
+/// every posting block ends with a line end (so that the one line end FormatOptions::format adds after an entry makes exactly one blank line)
+pub proof fn lemma_after_meta_ends_with_newline(t: Seq<char>, ms: Seq<Metadata>, n: int)
+    requires t.len() > 0, t.last() == '\n', n >= 0,
+    ensures after_meta(t, ms, n).len() > 0, after_meta(t, ms, n).last() == '\n',
+    decreases n
+{
+    if n > 0 { lemma_after_meta_ends_with_newline(t, ms, n - 1); }
+}
+pub proof fn theorem_posting_block_ends_with_a_line_end(t: Seq<char>, p: Posting, ctx: DisplayContext)
+    ensures posting_lines(t, p, ctx).len() > 0, posting_lines(t, p, ctx).last() == '\n',
+{
+    lemma_after_meta_ends_with_newline(posting_line(t, p, ctx), p.metadata@, p.metadata@.len() as int);
+}
